@@ -659,6 +659,10 @@ class Flow:
                     p = callee_path(t)
                     if p:
                         m.setdefault(p, []).append((b, bb, t))
+                    # a trait-method call resolved to a crate-local impl is also a call site of that impl
+                    r = (t.get("callee") or {}).get("resolved")
+                    if isinstance(r, dict) and r.get("path") and r["path"] != p and r["path"] in self.fb.bodies:
+                        m.setdefault(r["path"], []).append((b, bb, t))
             self._call_sites = m
         return self._call_sites
 
@@ -968,10 +972,13 @@ class Flow:
                 return {Src(("ctx",))}
             # closure parameter: find the adaptor the closure is passed to
             return self._closure_param(body, local, path, mode)
+        if "@" in mode and mode.split("@", 1)[1] == body.id:
+            # boundary query (`prov@<fn>`): stop at this function's parameters
+            return {Src(("param", body.id, local, tuple(path)))}
         # plain fn parameter: all in-crate call sites, else entry parameter
         sites = self.call_sites().get(body.id, [])
         sig = self.fb.fns.get(body.id)
-        if sig is None or sig.get("public") or not sites:
+        if sig is None or self.externally_callable(sig) or not sites:
             res.add(Src(("param", body.id, local, tuple(path))))
         for (cb, bb, t) in sites:
             if local - 1 < len(t["args"]):
@@ -990,6 +997,17 @@ class Flow:
                 else:
                     res |= self._q_operand(pb, t["args"][src], tuple(prefix) + tuple(path), mode)
         return res
+
+    def externally_callable(self, sig):
+        """public item, unless it is a trait method implemented for a type that is private to the crate"""
+        if not sig.get("public"):
+            return False
+        if sig.get("impl_trait") and sig.get("impl_self"):
+            ty = sig["impl_self"].split("<")[0].lstrip("&").strip()
+            adt = self.fb.adts.get(ty)
+            if adt is not None and not adt.get("public"):
+                return False
+        return True
 
     def internal_callback(self, body, pname):
         """If the type parameter `pname` called in `body` is a parameter of a
